@@ -11,7 +11,10 @@ ASSUMPTIONS = ["file data dumped by `p` is not archive-derived *text*: members c
                "header records are taken as the library returns them; list output is additionally compared with ListOutput.tla",
                "TLC/SANY/CommunityModules trusted"]
 FIELDS = ["name", "path", "target", "method_first", "method_later", "user", "group"]
-MODES = ["l", "lv", "v", "vv", "t", "x", "xn", "xq0", "xq1", "xq2", "p"]
+MODES = ["l", "lv", "v", "vv", "t", "x", "xn", "xq0", "xq1", "xq2", "p", "xx_n", "xx_s", "xx_a", "xx_y", "xx_z", "xxn", "xxi"]
+# xx_*: a second extraction over the result of a first one, without f / q: every file is asked about on standard error, the answers
+# being n, s (skip all), a (all), y, or something unrecognised first; xxn: dry run over existing files; xxi: the same with option i
+ANSWERS = {"xx_n": b"n\nn\nn\nn\n", "xx_s": b"s\n", "xx_a": b"a\n", "xx_y": b"y\ny\ny\ny\n", "xx_z": b"zz\n\x1b\nq\ny\nn\nn\n", "xxn": b"", "xxi": b"n\ny\ns\n"}
 
 
 def hostile_archive(field, byte, later):
@@ -76,6 +79,16 @@ def run(tier, seed, ev):
                     if not os.path.exists(a2):
                         shutil.copy(a, a2)
                     e, p = LG.list_event(lha, a2, mem[a], mode, 0, [], LG.NOW, LG.NOW - 1000)
+                elif mode.startswith("xx"):
+                    xd = os.path.join(sc, "x%d_%d" % (k, n))
+                    os.makedirs(xd)
+                    first = subprocess.run([lha, ("xiw=" if mode == "xxi" else "xw=") + xd, a], capture_output=True, env=V.run_env(), stdin=subprocess.DEVNULL, timeout=120)
+                    cmd = {"xxn": "xnw=", "xxi": "xiw="}.get(mode, "xw=") + xd
+                    p = subprocess.run([lha, cmd, a], capture_output=True, env=V.run_env(), input=ANSWERS[mode], timeout=120)
+                    e = {"e": "Out", "mode": mode, "cfg": [cfg[0], cfg[1], cfg[2]], "out": list(p.stdout + p.stderr)}
+                    if p.returncode == 255:
+                        p.returncode = 1           # (end of input at the prompt: the tool's own exit(-1))
+                    shutil.rmtree(xd, ignore_errors=True)
                 else:
                     xd = os.path.join(sc, "x%d_%d" % (k, n))
                     os.makedirs(xd)
